@@ -10,6 +10,7 @@ which is itself checked against the trial ledger (nothing fabricated, nothing
 duplicated) and for conservation across reshaping operations.
 """
 import copy
+import gc
 import gzip
 import json
 import math
@@ -255,6 +256,8 @@ class Store:
         import panqec.analysis as pan
         real_Path = pan.Path
         pan.Path = self._perm_path(real_Path)
+        gc_was = gc.isenabled()
+        gc.disable()      # finalisers run at chosen points only (see C12)
         try:
             for i, spec in enumerate(self.plan['inputs']):
                 self.sb.write_bytes(
@@ -264,6 +267,7 @@ class Store:
             self.expected = {}
             for idx, op in enumerate(self.plan['ops']):
                 applied = self.apply(idx, op)
+                gc.collect(0)
                 if self.violations:
                     break
                 if applied:
@@ -271,6 +275,8 @@ class Store:
                 if self.violations:
                     break
         finally:
+            if gc_was:
+                gc.enable()
             pan.Path = real_Path
             uninstall_chaos()
             self.ledger.uninstall()
